@@ -74,7 +74,7 @@ pub fn convert(f: &f::Layout) -> (r: Result<s::Layout, String>)
       table == alias_mappings@, itf.seq().len() == f.mappings@.len(), forall|j: int| 0 <= j < f.mappings@.len() ==> *itf.seq()[j] == f.mappings@[j],
       chunks.len() == itf.index@, forall|i: int| 0 <= i < chunks.len() ==> pairs_of(table, f.mappings@[i], #[trigger] chunks[i]),
       fts(res@) == flat(chunks),
-  {
+  { //@ | body
     //@ C13 | the source mapping of this iteration
     proof { assert(*fm == f.mappings@[itf.index@ as int]); }
     let sms = convert_mapping(&alias_mappings, fm)?;
@@ -86,7 +86,7 @@ pub fn convert(f: &f::Layout) -> (r: Result<s::Layout, String>)
         vstd::std_specs::hash::obeys_key_model::<FromSet>(), vstd::std_specs::hash::builds_valid_hashers::<std::collections::hash_map::RandomState>(),
         //@ C13 | the mappings of this expansion are appended one by one, in order
         its.seq() == smsv, fts(res@) == ft0 + fts(smsv.take(its.index@ as int)),
-    {
+    { //@ | body
       //@ C13 | the mapping of this iteration
       let ghost smg = sm; let ghost res0 = res@; let ghost k = its.index@ as int;
       proof { assert(sm == smsv[k]); }
@@ -123,7 +123,7 @@ pub fn convert(f: &f::Layout) -> (r: Result<s::Layout, String>)
     invariant alias_table_ok(alias_mappings@), table_ok(from_table@, res@.len() as int),
       //@ C13 | repeat-only entries leave triggers and outputs alone and append identity mappings only
       0 <= n_main <= res@.len(), fts(res@).take(n_main) == ft_main, forall|j: int| n_main <= j < res@.len() ==> (#[trigger] res@[j]).from@ == res@[j].to@,
-  {
+  { //@ | body
     //@ C13 | frame of one repeat-only pass
     let ghost r0 = res@;
     adjust_repeats(&mut res, &from_table, &alias_mappings, fm)?;
@@ -134,7 +134,7 @@ pub fn convert(f: &f::Layout) -> (r: Result<s::Layout, String>)
     invariant
       it.seq().len() == res@.len(), forall|j: int| 0 <= j < res@.len() ==> *it.seq()[j] == res@[j],
       forall|j: int| 0 <= j < it.index@ ==> crate::keys::mapping_ok(#[trigger] res@[j]),
-  {
+  { //@ | body
     check_mapping_is_usable(sm)?;
   }
   //@ C13 | the shape of the result
@@ -1315,7 +1315,7 @@ impl <'s> std::iter::Iterator for MultiplyIter<'s> {
           found ==> (fv0 ==> first_inc(q, p0, inc_at)) && self.position@ == succ_at(p0, inc_at) && self.position@.len() == q.len(),
         ensures
           (!found && fv0) ==> is_max(q, p0),
-      {
+      { //@ | body
         proof { assert(q[i as int] >= 1); assert(self.position@[i as int] == p0[i as int]); if fv0 { assert(p0[i as int] < q[i as int]); } }
         if self.position[i] < self.quantities[i]-1 {
           self.position[i] += 1;
@@ -1463,13 +1463,13 @@ fn has_duplicate_key(keys: &Vec<KeyCode>) -> (r: bool)
   for i in 0..keys.len()
     invariant
       forall|a: int, b: int| 0 <= a < i && a < b < keys@.len() ==> keys@[a] != keys@[b],
-  {
+  { //@ | body
     for j in i+1..keys.len()
       invariant
         i < keys@.len(),
         forall|a: int, b: int| 0 <= a < i && a < b < keys@.len() ==> keys@[a] != keys@[b],
         forall|b: int| i < b < j ==> keys@[i as int] != keys@[b],
-    {
+    { //@ | body
       if keys[i] == keys[j] {
         return true;
       }
